@@ -601,6 +601,76 @@ def check_circ(case, ctx):
                                             'cells written as constants)']})
 
 
+# -- names that stand for other names -----------------------------------------------
+
+def make_alias_case(seed, i):
+    """A chain of defined names N0 = <cell or range>, N1 = N0, N2 = N1 ...; the
+    dictionary lists its entries in a random order."""
+    rng = random.Random('fvmon/C07/alias/%s/%s' % (seed, i))
+    S, N = "'[book.xlsx]S'!%s", "'[book.xlsx]'!%s"
+    n = rng.randint(2, 4)
+    vals = [float(rng.randint(1, 9)) for _ in range(n)]
+    is_rng = i % 3 != 0
+    t_row = rng.randint(1, n)
+    target = S % ('$A$1:$A$%d' % n if is_rng else '$A$%d' % t_row)
+    chain = rng.sample(['ZED', 'AL', 'Rate_2', 'k', 'Mid.Name', 'Q_1'], rng.randint(2, 4))
+    items = [(S % ('A%d' % (r + 1)), vals[r]) for r in range(n)]
+    items.append((N % chain[0].upper(), '=' + target))
+    for a, b in zip(chain[1:], chain):
+        items.append((N % a.upper(), '=' + N % b.upper()))
+    last = N % chain[-1].upper()
+    items += [(S % 'B1', '=SUM(%s)' % (S % ('A1:A%d' % n))),
+              (S % 'B2', '=%s*2' % (S % ('A%d' % t_row))),
+              (S % 'B3', '=SUM(%s)' % last),
+              (S % 'B4', '=SUM(%s,%s)' % (N % chain[0].upper(), S % 'A1'))]
+    rng.shuffle(items)
+    new = [rng.choice((10.0, 20.5, -3.0, 100.0, 0.0)) for _ in range(n)]
+    return {'kind': 'alias', 'id': '%s/%s' % (seed, i), 'items': [list(x) for x in items],
+            'names': [N % c.upper() for c in chain], 'is_rng': is_rng, 'row': t_row,
+            'n': n, 'new': new, 'outputs': [S % ('B%d' % k) for k in (1, 2, 3, 4)]}
+
+
+def check_alias(case, ctx):
+    import formulas
+    S = "'[book.xlsx]S'!%s"
+    n, new = case['n'], case['new']
+    try:
+        m = formulas.ExcelModel().from_dict(dict(map(tuple, case['items']))).finish()
+        twin_items = dict(map(tuple, case['items']))
+        for r in range(n):
+            if case['is_rng'] or r + 1 == case['row']:
+                twin_items[S % ('A%d' % (r + 1))] = new[r]
+        twin = formulas.ExcelModel().from_dict(twin_items).finish().calculate()
+    except Exception as ex:
+        ctx.violation('alias:load-raised:%s' % type(ex).__name__, {
+            'case': case, 'observed': '%s: %s' % (type(ex).__name__, str(ex)[:150]),
+            'accepted': ['a model']})
+        return
+    want = {o: xl.canon(xl.scalar(twin[o])) for o in case['outputs']}
+    value = [[v] for v in new] if case['is_rng'] else new[case['row'] - 1]
+    ctx.case((case['id'],))
+    for depth, name in enumerate(case['names']):
+        ctx.count('monitor.alias-override')
+        try:
+            sol = m.calculate({name: value})
+            got = {o: xl.canon(xl.scalar(sol[o])) if o in sol else ('missing',)
+                   for o in case['outputs']}
+        except Exception as ex:
+            ctx.violation('alias:calculate-raised:%s' % type(ex).__name__, {
+                'case': case, 'through': name, 'observed': repr(ex)[:150],
+                'accepted': ['a solution']})
+            continue
+        bad = [o for o in case['outputs'] if not xl.same(got[o], want[o], rel=1e-12)]
+        if bad:
+            ctx.violation('alias:override-through-name-differs:%s:depth%d' % (
+                'range' if case['is_rng'] else 'cell', depth), {
+                'case': case, 'through': name, 'value': value, 'cell': bad[0],
+                'dictionary_order': [k for k, _ in case['items']],
+                'observed': xl.show(got[bad[0]]),
+                'accepted': [xl.show(want[bad[0]]) +
+                             ' (the same workbook with the cells holding these values)']})
+
+
 def plan(tier, seed):
     n = 160 if tier == 'quick' else 3000
     per = 10 if tier == 'quick' else 60
@@ -608,12 +678,16 @@ def plan(tier, seed):
              for lo in range(0, n, per)]
     nc = 400 if tier == 'quick' else 6000
     specs += [{'kind': 'circular', 'lo': lo, 'hi': lo + 100} for lo in range(0, nc, 100)]
+    na = 200 if tier == 'quick' else 3000
+    specs += [{'kind': 'alias', 'lo': lo, 'hi': lo + 100} for lo in range(0, na, 100)]
     return specs
 
 
 def check_case(case, ctx):
     if case['kind'] == 'circ':
         check_circ(case, ctx)
+    elif case['kind'] == 'alias':
+        check_alias(case, ctx)
     else:
         check_history(case, ctx)
 
@@ -625,6 +699,13 @@ def run(spec, ctx):
             case = make_circ_case(spec['seed'], i)
             check_circ(case, ctx)
         ctx.sample({'cells': case['cells'], 'overrides': case['X']})
+        return
+    if spec['kind'] == 'alias':
+        for i in range(spec['lo'], spec['hi']):
+            case = make_alias_case(spec['seed'], i)
+            ctx.open_case({'kind': 'alias', 'id': case['id']})
+            check_alias(case, ctx)
+        ctx.sample({'alias_chain': case['names'], 'order': [k for k, _ in case['items']]})
         return
     for i in range(spec['lo'], spec['hi']):
         c = make_case(spec['seed'], i, spec['tier'])
@@ -648,7 +729,8 @@ def finalize(agg, tier):
                      ('contract.value.cache', 100), ('monitor.circular-twin', 300),
                      ('override-values-as-Ranges.own', 20),
                      ('override-values-as-Ranges.other', 20),
-                     ('monitor.nodeless-member-in-solution', 8)):
+                     ('monitor.nodeless-member-in-solution', 8),
+                     ('monitor.alias-override', 400)):
         if c.get(k, 0) < floor:
             inc.append('monitor %s saw %d events (< %d)' % (k, c.get(k, 0), floor))
     return {'inconclusive': inc, 'coverage': {
